@@ -30,6 +30,8 @@ text("abcdefghijklmnopqrstuvwxyz").
 text("caf\xe9\ \x20ac\\x1f600\ xyz").
 text("ab\x0\cd").
 text("abcde\xe9\").
+text("\xe9\\xe9\ab").
+text("\x20ac\\x1f600\\xe9\xyz\x20ac\").
 text("abcde\x20ac\").
 text("abcde\x1f600\").
 text("\x0\").
@@ -51,6 +53,10 @@ case(I, S) :-
     chk(I-findall, findall(X, member(X, S), R11), R11, findall(X, member(X, L), R12), R12),
     chk(I-sort, sort(S, R13), R13, sort(L, R14), R14),
     chk(I-nth0, findall(K-X, nth0(K, S, X), R27), R27, findall(K-X, nth0(K, L, X), R28), R28),
+    chk(I-nth0b, findall(K-X, ( member(K, [0, 1, 2, 3, 4, 6, 7, 8, 25]), nth0(K, S, X) ), R65), R65, findall(K-X, ( member(K, [0, 1, 2, 3, 4, 6, 7, 8, 25]), nth0(K, L, X) ), R66), R66),
+    chk(I-nth1b, findall(K-X, ( member(K, [1, 2, 3, 5, 7, 9]), nth1(K, S, X) ), R67), R67, findall(K-X, ( member(K, [1, 2, 3, 5, 7, 9]), nth1(K, L, X) ), R68), R68),
+    chk(I-lengthb, findall(N, ( member(N, [0, 1, 2, 3, 6, 7, 8, 9, 26]), length(S, N) ), R69), R69, findall(N, ( member(N, [0, 1, 2, 3, 6, 7, 8, 9, 26]), length(L, N) ), R70), R70),
+    chk(I-prefix, findall(P, ( member(N, [0, 1, 2, 3, 5]), length(P, N), append(P, _, S) ), R71), R71, findall(P, ( member(N, [0, 1, 2, 3, 5]), length(P, N), append(P, _, L) ), R72), R72),
     chk(I-last, (append(_, [R29], S) -> true ; R29 = none), R29, (append(_, [R30], L) -> true ; R30 = none), R30),
     chk(I-arg, (arg(1, S, A1x), arg(2, S, A2x), R31 = A1x-A2x), R31, (arg(1, L, B1x), arg(2, L, B2x), R32 = B1x-B2x), R32),
     chk(I-functor, (functor(S, N1, Ar1), R33 = N1/Ar1), R33, (functor(L, N2, Ar2), R34 = N2/Ar2), R34),
